@@ -1,5 +1,6 @@
 --------------------------- MODULE MC_SortedSearch ---------------------------
-(* Bounded design model of C14.  One state per input.  An input is a small history of table T:    *)
+(* Bounded design model of C14.  Two states per input (chosen; judged, so that all TLC workers   *)
+(* evaluate the invariant).  An input is a small history of table T:                              *)
 (*   [rows  |-> <<[g, s]>>        the initial rows (row ids 1..n),                                 *)
 (*    msv   |-> "asc" | "rev"     manualSort ascending or descending in the row id,                *)
 (*    steps |-> <<[op, id, g, s]>>  edits: set_s / set_g of row id, rm of row id, add of a row,    *)
@@ -36,7 +37,6 @@ QuickFams == <<
   Fam(1, Mix3, 3, 3, {0, 1}, {"asc"}, 0, "std"),          \* 3 rows, two groups, mixed classes
   Fam(1, All5, 3, 3, {0},    {"rev"}, 0, "std"),          \* 3 rows, one group, manualSort against id
   Fam(1, Mix3, 4, 4, {0},    {"rev"}, 0, "std"),          \* 4 rows
-  Fam(1, Two,  4, 4, {0, 1}, {"asc"}, 0, "std"),
   Fam(2, 1..9, 1, 2, {0},    {"asc", "rev"}, 0, "std"),   \* bool = int ties, floats, str order
   Fam(1, Two,  1, 2, {0, 1}, {"asc"}, 1, "std"),          \* one edit
   Fam(1, Two,  1, 2, {0, 1}, {"asc"}, 0, "id") >>         \* order_by="id"
